@@ -20,6 +20,7 @@ type c11case struct {
 	SegRead bool
 	CloseAt int // -1: write everything then close; >=0: close after this many bytes (abrupt)
 	Explore bool
+	Pause   bool // the sender pauses (virtual time passes) between segments
 }
 
 type c11stream struct {
@@ -30,10 +31,10 @@ type c11stream struct {
 func c11Streams() []c11stream {
 	valid := colStream(1, 2)
 	h := refcodec.Header{ExportTime: 1000, Seq: 9, Domain: 1}
-	badVersion := refcodec.DataMsg(h, refcodec.Template{ID: 256, Fields: colTA}, [][][]byte{{{1, 2}, {3}, []byte("zz")}})
+	badVersion := refcodec.DataMsg(h, refcodec.Template{ID: 256, Fields: colTA}, [][][]byte{{{1, 2}, {3}, []byte("zz"), {9, 9}}})
 	badVersion[0], badVersion[1] = 0, 9
 	unknownTmpl := refcodec.Msg(h, 300, []byte{1, 2, 3, 4, 5, 6})
-	shortField := refcodec.Msg(h, 256, []byte{1, 2, 3, 9, 'a', 'b'}) // string prefix 9, only 2 bytes follow
+	shortField := refcodec.Msg(h, 256, []byte{1, 2, 3, 9, 'a', 'b'}) // string prefix 9, only 2 bytes follow (and no octet array at all)
 	badTemplate := refcodec.TemplateMsg(h, refcodec.Template{ID: 257, Fields: []refcodec.FieldSpec{{ID: 7, Len: 2}, {ID: 999, Len: 3}}})
 	tinyLen := append([]byte{}, valid[1]...)
 	tinyLen[2], tinyLen[3] = 0, 10 // header length 10: shorter than a header
@@ -71,6 +72,9 @@ func c11Cases(tier string) []c11case {
 			cs = append(cs, c11case{Stream: si, SegRead: seg, CloseAt: -1})
 			for a := 1; a < n; a++ {
 				cs = append(cs, c11case{Stream: si, Cuts: []int{a}, SegRead: seg, CloseAt: -1})
+				if seg && si <= 3 {
+					cs = append(cs, c11case{Stream: si, Cuts: []int{a}, SegRead: seg, CloseAt: -1, Pause: true})
+				}
 			}
 			pairs := si == 0 || tier == "thorough" || (si >= 4 && (si-4)%3 == 1)
 			if pairs {
@@ -142,7 +146,7 @@ func c11Scenario(c c11case) *vsched.Scenario {
 		msgs = ms
 	}
 	segs := cutAt(whole, c.Cuts)
-	a := colClient{domain: 1, segments: segs, messages: msgs, closeAtEnd: true}
+	a := colClient{domain: 1, segments: segs, messages: msgs, closeAtEnd: true, pause: c.Pause}
 	other := colStream(2, 1)
 	b := colClient{domain: 2, segments: other, messages: other, closeAtEnd: true}
 	return colScenario("c11", []colClient{a, b}, colOpts{proto: "tcp", segmentReads: c.SegRead})
@@ -272,7 +276,7 @@ func runC11(tier, replay string) int {
 	ev.Coverage = common.Coverage{
 		"states": tot.Cases, "transitions": tot.Steps, "traces_validated_against_impl": tot.Execs, "samples": samples,
 		"evaluations": tot.Execs, "distinct_nontrivial": tot.Cases,
-		"rule":       "19 byte streams (four valid ones incl. a padded data set and a two-record template set; five kinds of undecodable message at each of three positions) x {no cut, every single cut, every pair of cuts (quick: for the valid stream and one position per bad kind; thorough: all)} x {reads return one segment, reads coalesce}, plus a peer close after every prefix, thorough: every triple on the two-message stream and all 2^19 segmentations of the first 20 bytes; each case is one execution of the real collector (Start() on the in-memory network, a second connection with a valid stream alongside) under the controlled scheduler's default schedule, and a subset is additionally explored with one scheduling delay; oracle: deliveries = the decodable prefix of the stream, decoded correctly, connection closed by the collector after the first undecodable message, the other connection complete. distinct_nontrivial = distinct (stream, segmentation, read mode) cases",
+		"rule":       "19 byte streams (four valid ones incl. a padded data set and a two-record template set; five kinds of undecodable message at each of three positions) x {no cut, every single cut (for the valid streams also with the sender pausing a second of virtual time at the cut), every pair of cuts (quick: for the valid stream and one position per bad kind; thorough: all)} x {reads return one segment, reads coalesce}, plus a peer close after every prefix, thorough: every triple on the two-message stream and all 2^19 segmentations of the first 20 bytes; each case is one execution of the real collector (Start() on the in-memory network, a second connection with a valid stream alongside) under the controlled scheduler's default schedule, and a subset is additionally explored with one scheduling delay; oracle: deliveries = the decodable prefix of the stream, decoded correctly, connection closed by the collector after the first undecodable message, the other connection complete. distinct_nontrivial = distinct (stream, segmentation, read mode) cases",
 		"exhaustive": true, "cases": tot.Cases, "distinct_observation_logs": len(tot.Outcomes),
 	}
 	ev.Assumptions = []string{"framing follows each message's own (correct) length field; after the first undecodable message nothing more is expected", "segment boundaries are exactly what a Read returns in segment mode; coalescing mode returns everything available"}
